@@ -24,6 +24,7 @@ fn registry() -> Vec<(&'static str, RunFn, ReplayFn)> {
         ("C11", props::c11::run, props::c11::replay),
         ("C16", props::c16::run, props::c16::replay),
         ("C17", props::c17::run, props::c17::replay),
+        ("C19", props::c19::run, props::c19::replay),
     ]
 }
 
